@@ -150,3 +150,33 @@ def handler_types(h):
         return ["<bare>"]
     elts = h.type.elts if isinstance(h.type, ast.Tuple) else [h.type]
     return [dotted(e) or unparse(e) for e in elts]
+
+
+def names_defined_by(fa, pred):
+    """local names whose (plain) assignment value satisfies pred(value_expr) — lets a rule refer to a
+    local by what it holds rather than by how it is spelled"""
+    out = []
+    for s in fa.stmts((ast.Assign, ast.AnnAssign)):
+        v = s.value
+        if v is None:
+            continue
+        if isinstance(v, ast.Await):
+            v2 = v.value
+        else:
+            v2 = v
+        if pred(v) or pred(v2):
+            tg = s.targets if isinstance(s, ast.Assign) else [s.target]
+            for t in tg:
+                if isinstance(t, ast.Name) and t.id not in out:
+                    out.append(t.id)
+    return out
+
+
+def one_name(ctx, rule, fa, pred, what):
+    ns = names_defined_by(fa, pred)
+    if len(ns) != 1:
+        ctx.ob(rule, False, fa.site(), f"mechanism present: local holding {what}",
+               detail=f"found {len(ns)} candidate locals {ns}", func=fa.fi.qualname,
+               key=f"{rule}|{fa.fi.qualname}|missing-local|{what}")
+        return None
+    return ns[0]
